@@ -10,9 +10,9 @@ package jet
 
 // Everything the interpreter may change while executing template code. The parsed templates (all
 // node types, Template, Set) are deliberately absent: executing never modifies them (C10).
-//@ modset Interp := type Runtime.scope, type Runtime.context, type Runtime.content, type escapeeWriter.Writer, mapsof VarMap, ghost T, type sliceRanger.i, type sliceRanger.v, type mapRanger.iter, type mapRanger.hasMore, type chanRanger.v, type intsRanger.i, type intsRanger.val, mapsof map[reflect.Type]map[string][]int, global cachedStructsFieldIndex
+//@ modset Interp := ghost CM, ghost NL, type Runtime.scope, type Runtime.context, type Runtime.content, type escapeeWriter.Writer, mapsof VarMap, ghost T, type sliceRanger.i, type sliceRanger.v, type mapRanger.iter, type mapRanger.hasMore, type chanRanger.v, type intsRanger.i, type intsRanger.val, mapsof map[reflect.Type]map[string][]int, global cachedStructsFieldIndex
 
-//@ pred RtOK(st *Runtime) := st != nil && st.scope != nil && st.escapeeWriter != nil && st.escapeeWriter.set != nil && st.escapeeWriter.set.gmx != nil
+//@ pred RtOK(st *Runtime) := st != nil && st.scope != nil && st.escapeeWriter != nil && st.escapeeWriter.set != nil && st.escapeeWriter.set.gmx != nil && SetOK(st.escapeeWriter.set)
 // S(st): the interpreter state that enclosing constructs must leave as they found it.
 //@ pred SameS(st *Runtime) := st.scope == old(st.scope) && st.context == old(st.context) && st.content == old(st.content) && st.escapeeWriter.Writer == old(st.escapeeWriter.Writer)
 
@@ -418,8 +418,8 @@ package jet
 //@ func (*Runtime).executeYieldBlock$1
 //@   refines field:Runtime.content
 //@   nocrash
-//@   requires *myscope != nil
-//@   callsite (*Runtime).executeList * requires st.scope == *myscope && st.content == *mycontent
+//@   requires myscope != nil
+//@   callsite (*Runtime).executeList * requires st.scope == myscope && st.content == mycontent
 //@   callsite (*Runtime).executeList count 2
 
 //@ func (*Runtime).executeYieldBlock
@@ -496,17 +496,13 @@ package jet
 //@   requires RtOK(st)
 //@   modifies @Interp
 //@   ensures [yieldblock-balanced] SameS(st)
-//@   ensures [yieldblock-renders-exactly-once] ncalls("(*Runtime).executeList") == 1
+//@   check [yieldblock-renders-exactly-once] ncalls("(*Runtime).executeList") == 1
 //@   callsite (*Runtime).executeList * requires [yieldblock-context] ite(caller.context != nil, st.context == RvOf(caller.context), st.context == old(st.context))
 
-//@ func (*Set).getSiblingTemplate
-//@   props C15 C16
-//@   requires s != nil
-//@   ensures err == nil ==> t != nil
-//@ func (*Set).GetTemplate
-//@   props C15 C16
-//@   requires s != nil
-//@   ensures err == nil ==> t != nil
+
+// AST invariant (assumed here, established by the constructors: TemplatePath is t.Name of the template being
+// parsed, and (*Set).parse requires a canonical name)
+//@ axiom forallT(n, "*IncludeNode", n != nil ==> Canon(n.NodeBase.TemplatePath))
 
 // RootOf(t): the root ancestor of t along extends (templates are immutable while executing)
 //@ ufunc RootOf(*Template) *Template
@@ -541,7 +537,7 @@ package jet
 //@ func (*Template).Execute
 //@   props C10 C08 C12
 //@   nocrash
-//@   requires t != nil && t.set != nil && t.set.gmx != nil
+//@   requires t != nil && t.set != nil && t.set.gmx != nil && SetOK(t.set)
 //@   modifies @Interp, type Runtime.escapeeWriter, type escapeeWriter.set, type scope.blocks, type scope.variables, type scope.parent
 //@   loop 0 invariant [root-walk] t != nil && RootOf(t) == RootOf(old(t))
 //@   callsite (*sync.Pool).Put 0 requires [pool-invariant-at-put] p == gaddr(pool_State) && istype(x, "*Runtime") && PoolInv(as(x, "*Runtime"))
@@ -569,8 +565,8 @@ package jet
 //@   modifies @Interp
 //@   loop 0 invariant [root-walk] RtOK(a.runtime) && t != nil && RootOf(t) == RootOf(lastret("(*Set).GetTemplate", 0)) && root == t.Root && a.runtime.scope.blocks == lastret("(*Set).GetTemplate", 0).processedBlocks && a.runtime.scope.parent == old(a.runtime.scope) && a.runtime.content == old(a.runtime.content) && a.runtime.context == old(a.runtime.context) && deferred(0) && a.runtime.escapeeWriter.Writer == old(a.runtime.escapeeWriter.Writer)
 //@   ensures [includeIfExists-balanced] SameS(a.runtime)
-//@   ensures [includeIfExists-missing-renders-nothing] ncalls("(*Runtime).executeList") == 0 ==> result == hiddenFalse
-//@   ensures [includeIfExists-existing-renders-once] ncalls("(*Runtime).executeList") == 1 ==> result == hiddenTrue
+//@   check [includeIfExists-missing-renders-nothing] ncalls("(*Runtime).executeList") == 0 ==> result == hiddenFalse
+//@   check [includeIfExists-existing-renders-once] ncalls("(*Runtime).executeList") == 1 ==> result == hiddenTrue
 //@   callsite (*Runtime).executeList 0 requires [includeIfExists-runs-root-with-its-blocks] list == RootOf(lastret("(*Set).GetTemplate", 0)).Root && st.scope.blocks == lastret("(*Set).GetTemplate", 0).processedBlocks && st.scope.parent == old(a.runtime.scope) && st.escapeeWriter.Writer == old(a.runtime.escapeeWriter.Writer)
 //@   callsite (*Runtime).executeList count 1
 
